@@ -437,9 +437,7 @@ func (w *vfWorld) build() error {
 	vfhook.GetLDAPUserGroups = w.dirsim.getGroups
 	vfhook.GetLDAPUserAttributes = w.dirsim.getAttributes
 	vfhook.EventPublishCert = nil
-	vfhook.VipValidateUserOTP = w.vipsim.validateOTP
-	vfhook.VipStartUserVIPPush = w.vipsim.startPush
-	vfhook.VipPushHasBeenApproved = w.vipsim.pushApproved
+	vfhook.VipPostBytes = w.vipsim.soap
 	// everything that goes through http.DefaultClient (the Okta authenticator does) meets the simulated service
 	w.okta = newSimOkta(w)
 	w.idp = newSimIdP(w)
